@@ -207,7 +207,7 @@ class Gen:
     def matfun(self):
         rng = self.rng
         op = rng.choice(["Trace", "Det", "Det", "Inv", "Inv"])
-        n = rng.choice([1, 2, 2, 3, 3, 3]) if op != "Trace" else rng.choice([1, 2, 3, 4])
+        n = rng.choice([1, 2, 2, 3, 3, 3, 4]) if op != "Trace" else rng.choice([1, 2, 3, 4])
         k = rng.choice(["fe", "fe", "fe", "plain"])
         if k == "fe":
             Ne, nPg = (n, n) if self.coll else (self.d(), self.d())
@@ -219,7 +219,13 @@ class Gen:
         for _ in range(nb):
             m = self.unimodular(n) if op == "Inv" else [[rng.randint(-3, 4) for _ in range(n)] for _ in range(n)]
             data += [x for row in m for x in row]
-        return {"op": op, "args": [{"k": k, "shape": batch + [n, n], "data": data}]}
+        c = {"op": op, "args": [{"k": k, "shape": batch + [n, n], "data": data}]}
+        if n > 3 and op != "Trace":
+            # delegated to numpy.linalg by the source: compared with the exact Leibniz / adjugate
+            # oracle only, to 1e-10 (LAPACK on small integer matrices)
+            c["model"] = False
+            c["tol"] = 1e-10
+        return c
 
     # -- reducers -----------------------------------------------------------------------
     def reduce(self):
@@ -392,12 +398,12 @@ class Gen:
                 if which == "concat":
                     si[a - 2] = self.d()
                 ops.append(self.operand("fe", [Ne, nPg] + si))
-            return {"op": which, "axis": a if rng.random() < 0.5 else a - nd, "args": ops, "model": False}
+            return {"op": which, "axis": a if rng.random() < 0.5 else a - nd, "args": ops}
         if which == "swapaxes":
             r = rng.choice([2, 3])
             s = [self.d() for _ in range(r)]
             a, b = rng.sample(range(2, 2 + r), 2)
-            return {"op": "swapaxes", "axes": [a, b - (2 + r)], "args": [self.operand("fe", [Ne, nPg] + s)], "model": False}
+            return {"op": "swapaxes", "axes": [a, b - (2 + r)], "args": [self.operand("fe", [Ne, nPg] + s)]}
         if which == "linalg":
             fn = rng.choice(["inv", "det", "solve"])
             n = rng.choice([1, 2, 2, 3, 3])
@@ -412,7 +418,6 @@ class Gen:
         if which == "reducekd":
             c = self.reduce()
             c["keepdims"] = True
-            c["model"] = False
             return c
         # in-place operators and out=
         code = rng.choice([0, 1, 2, 3])
@@ -428,8 +433,8 @@ class Gen:
         else:
             y = self.operand("fe", self.lead(Ne, nPg) + self.derive(s), pool)
         if which == "inplace":
-            return {"op": "inplace", "code": code, "args": [x, y], "model": False}
-        return {"op": "out", "code": code, "args": [x, y], "out_shape": [Ne, nPg] + s, "out_kind": rng.choice(["fe", "plain"]), "model": False}
+            return {"op": "inplace", "code": code, "args": [x, y]}
+        return {"op": "out", "code": code, "args": [x, y], "out_shape": [Ne, nPg] + s, "out_kind": rng.choice(["fe", "plain"])}
 
     FAMILIES = [("ufunc2", 30), ("contract", 22), ("reduce", 9), ("einsum", 6), ("where", 5),
                 ("transposes", 5), ("matfun", 5), ("broadcast", 5), ("ufunc1", 2),
@@ -514,6 +519,12 @@ def directed_cases():
             C.append({"op": op, "args": [{"k": "plain", "shape": [n, n], "data": m}]})
             mt = [m[j * n + i] for i in range(n) for j in range(n)]     # transpose: same determinant (a power of 2)
             C.append({"op": op, "args": [{"k": "fe", "shape": [n, n, n, n], "data": sum([m if b % 2 == 0 else mt for b in range(n * n)], [])}]})
+    m4 = [1, 2, 0, 1, 0, 1, 3, 0, 1, 0, 2, 1, 0, 0, 1, 1]
+    m5 = [1, 0, 2, 0, 1, 0, 1, 0, 3, 0, 1, 0, 1, 0, 2, 0, 1, 0, 1, 0, 0, 0, 1, 0, 2]
+    for n, m in ((4, m4), (5, m5)):
+        for op in ("Det", "Inv"):
+            C.append({"op": op, "args": [{"k": "fe", "shape": [2, 1, n, n], "data": m + [m[j * n + i] for i in range(n) for j in range(n)]}], "model": False, "tol": 1e-10})
+            C.append({"op": op, "args": [{"k": "plain", "shape": [n, n], "data": m}], "model": False, "tol": 1e-10})
     # wrap: results whose shape looks like a field but is not on the (Ne, nPg) axes
     C.append({"op": "einsum", "labels": [[0, 1]], "out": [1, 0], "args": [fe([2, 2, 2, 2])]})
     C.append({"op": "where", "args": [fe([2, 2], [0, 1, 1, 0]), fe([2, 2]), sc(0)]})
@@ -574,26 +585,26 @@ def directed_cases():
     # shape-coincidence probes of __wrap: axes 0/1 moved while Ne = nPg (= stack size)
     a3, b3 = fe([2, 2, 3]), fe([2, 2, 3], [(4 * i + 1) % 5 - 2 for i in range(12)])
     for ax in (2, -1):
-        C.append({"op": "concat", "axis": ax, "args": [a3, b3], "model": False})
-        C.append({"op": "stack", "axis": ax, "args": [a3, b3], "model": False})
-    C.append({"op": "stack", "axis": 0, "args": [a3, b3], "model": False})
-    C.append({"op": "stack", "axis": 0, "args": [fe([3, 2, 2]), fe([3, 2, 2])], "model": False})
-    C.append({"op": "swapaxes", "axes": [0, 1], "args": [a3], "model": False})
-    C.append({"op": "swapaxes", "axes": [0, 1], "args": [fe([3, 2, 2])], "model": False})
-    C.append({"op": "swapaxes", "axes": [2, 3], "args": [fe([2, 2, 2, 3])], "model": False})
+        C.append({"op": "concat", "axis": ax, "args": [a3, b3]})
+        C.append({"op": "stack", "axis": ax, "args": [a3, b3]})
+    C.append({"op": "stack", "axis": 0, "args": [a3, b3]})
+    C.append({"op": "stack", "axis": 0, "args": [fe([3, 2, 2]), fe([3, 2, 2])]})
+    C.append({"op": "swapaxes", "axes": [0, 1], "args": [a3]})
+    C.append({"op": "swapaxes", "axes": [0, 1], "args": [fe([3, 2, 2])]})
+    C.append({"op": "swapaxes", "axes": [2, 3], "args": [fe([2, 2, 2, 3])]})
     for how in ("method", "np"):
         for axis in ([2, 3], [-1], [1], [0, 2], None):
             C.append({"op": "reduce", "code": 0, "axis": axis, "how": how, "kw": True, "tuple": bool(axis and len(axis) > 1), "keepdims": True,
-                      "args": [fe([2, 2, 2, 2])], "model": False})
+                      "args": [fe([2, 2, 2, 2])]})
     um = [2, 1, 3, 2, 1, 0, 1, 1, 1, 2, 0, 1, 1, 1, -1, 2]
     C.append({"op": "linalg", "fn": "inv", "args": [{"k": "fe", "shape": [2, 2, 2, 2], "data": um}], "model": False, "tol": 1e-10})
     C.append({"op": "linalg", "fn": "det", "args": [{"k": "fe", "shape": [2, 2, 2, 2], "data": um}], "model": False, "tol": 1e-10})
     C.append({"op": "linalg", "fn": "solve", "args": [{"k": "fe", "shape": [2, 1, 2, 2], "data": um[:8]}, fe([1, 2, 2, 1])], "model": False, "tol": 1e-10})
     for code in (0, 1, 2, 3):
         for y in (sc(2), pl([2], [1, 2]), fe([1, 1, 2], [2, 4]), fe([2, 2], [1, 2, 4, -1]), pl([2, 2, 2], [1, 2, 4, 1, 2, 4, 1, 2])):
-            C.append({"op": "inplace", "code": code, "args": [fe([2, 2, 2, 2]), y], "model": False})
+            C.append({"op": "inplace", "code": code, "args": [fe([2, 2, 2, 2]), y]})
             for ok in ("fe", "plain"):
-                C.append({"op": "out", "code": code, "args": [fe([2, 2, 2, 2]), y], "out_shape": [2, 2, 2, 2], "out_kind": ok, "model": False})
+                C.append({"op": "out", "code": code, "args": [fe([2, 2, 2, 2]), y], "out_shape": [2, 2, 2, 2], "out_kind": ok})
     for i, c in enumerate(C):
         c["coll"] = True
     return C
@@ -657,7 +668,7 @@ def coq_expr(c):
         return "%s Q %s %s" % ({"matmul": "EMatmul", "dot": "EDot", "ddot": "EDdot"}[op], A[0], A[1])
     if op in ("T", "Transpose", "Trace", "Det", "Inv"):
         return "E%s Q %s" % (op, A[0])
-    if op == "reduce":
+    if op == "reduce" and not c.get("keepdims"):
         ax = "None" if c["axis"] is None else "(Some [%s]%%Z)" % "; ".join(zlit(a) for a in c["axis"])
         return "EReduce Q %d %s %s" % (c["code"], ax, A[0])
     if op == "einsum":
@@ -666,6 +677,17 @@ def coq_expr(c):
         return "EWhere Q %s %s %s" % (A[0], A[1], A[2])
     if op == "broadcast":
         return "EBroadcast Q %s %d %d %d" % (A[0], c["Ne"], c["nPg"], c["td"])
+    if op == "reduce" and c.get("keepdims"):
+        ax = "None" if c["axis"] is None else "(Some [%s]%%Z)" % "; ".join(zlit(a) for a in c["axis"])
+        return "EReduceKd Q %d %s %s" % (c["code"], ax, A[0])
+    if op == "swapaxes":
+        return "ESwapaxes Q %s%%Z %s%%Z %s" % (zlit(c["axes"][0]), zlit(c["axes"][1]), A[0])
+    if op in ("concat", "stack"):
+        return "%s Q %s%%Z [%s]" % ("EConcat" if op == "concat" else "EStack", zlit(c["axis"]), "; ".join(A))
+    if op in ("inplace", "out"):
+        oshape = c["args"][0]["shape"] if op == "inplace" else c["out_shape"]
+        ofe = "true" if (op == "inplace" or c["out_kind"] == "fe") else "false"
+        return "EOut Q %d %s %s %s %s" % (c["code"], A[0], A[1], nlist(oshape), ofe)
     if op == "TensorProd":
         return "ETensorProd Q %s %s %s %s" % ("true" if c["sym"] else "false", "None" if c.get("nd") is None else "(Some %d)" % c["nd"], A[0], A[1])
     if op == "Norm":
@@ -871,7 +893,7 @@ def correspondence(ctx, ncases, cap, per_file=400):
 
     def run(fb):
         return fb[0], ctx.coq_eval(fb[0], fb[1], timeout=900)
-    with ThreadPoolExecutor(max_workers=4) as ex:
+    with ThreadPoolExecutor(max_workers=3) as ex:
         outs = list(ex.map(run, files))
     verdict = {}
     for fname, (rc, txt) in outs:
@@ -946,7 +968,7 @@ def report(ctx, cases, results, bad, rbad):
     mvs = {c["id"]: m for c, m in zip(modelled, parsed + [None] * len(modelled))}
     for key, c in reps.items():
         r = results[c["id"]]
-        mv = mvs.get(c["id"]) or r.get("oracle") or {"kind": -1, "shape": [], "data": []}
+        mv = (r.get("oracle") if r.get("oracle_ok") is False else None) or mvs.get(c["id"]) or {"kind": -1, "shape": [], "data": []}
         cc = {k: v for k, v in c.items() if k not in ("coll", "model")}
         snippet = REPLAY % {"case": json.dumps(cc), "model": json.dumps(mv)}
         prc, pout, perr = common.sh([common.PY, "-c", snippet], timeout=120, cwd=ctx.build,
@@ -1038,7 +1060,7 @@ def run(ctx):
         for r in failed:
             ctx.log("proof obligations broke in %s" % r.failed_file)
         ctx.sample({"theorem": "C12_elementwise_pointwise", "statement": "forall V vbin op a c Ne nPg s, shape a = Ne::nPg::s -> (np_bcast s (shape c) = Some u -> fe op plain and plain op fe are FeArrays of shape Ne::nPg::u with res[e,p,K] = op(a[e,p,K|s], c[K|t]) in the written order) /\\ (None -> ValueError)", "assumptions": "closed under the global context"})
-    n, cap = (2000, 1200) if ctx.tier == "quick" else (8000, 2500)
+    n, cap = (1800, 1200) if ctx.tier == "quick" else (8000, 2500)
     nviol0 = len(ctx.violations)
     if gen is None:
         # the case files need the generated closed forms; without them only report the translator failure
